@@ -1,12 +1,18 @@
 CHECK = {
-    "suites": [suite("allocate", "c03", 6000, 600000, stdin=True)],
+    "suites": [suite("allocate", "c03", 6000, 600000, stdin=True),
+               suite("raw", "c03", 2500, 120000, stdin=True, args=["-suite", "raw"]),
+               suite("block", "c03", 2000, 80000, stdin=True, args=["-suite", "block"])],
     "gen": [{"pkg": "extract_c03", "out": "lean/ClusterVerif/Gen/C03.lean"}],
-    "lean_sources": ["ClusterVerif/Model/C03Skeleton.lean", "ClusterVerif/Gen/C03.lean", "ClusterVerif/Model/C03.lean", "ClusterVerif/Spec/C03.lean", "ClusterVerif/Lemmas/C03.lean", "ClusterVerif/Lemmas/C03Sort.lean"],
+    "lean_sources": ["ClusterVerif/Model/C03Skeleton.lean", "ClusterVerif/Gen/C03.lean", "ClusterVerif/Model/C03.lean", "ClusterVerif/Spec/C03.lean", "ClusterVerif/Lemmas/C03.lean", "ClusterVerif/Lemmas/C03Sort.lean",
+                     "ClusterVerif/Model/C03Pipeline.lean", "ClusterVerif/Lemmas/C03Pipeline.lean", "ClusterVerif/Model/C03Block.lean",
+                     "ClusterVerif/Lemmas/C03Block.lean", "ClusterVerif/Spec/C03Block.lean", "ClusterVerif/Model/C04.lean", "ClusterVerif/Model/Pin.lean"],
     "rule": "cases = (strategy, factor pair, 0-8 peers each in one of 5 metric states, current/exclusion/priority lists) "
-            "drawn from one splitmix64 stream per case index; non-trivial = positive factors or everywhere (-1,-1); distinct by case line",
-    "trusted_base": ["metrics.Store-backed monitor stands in for pubsubmon (LatestValid is the real code)",
+            "drawn from one splitmix64 stream per case index; suite raw: 0-14 raw metric arrivals (3 names, members and non-members, invalid/expired/non-numeric, repeats in any order) "
+            "+ peerset view (none / failing / members) through the real pubsubmon.Monitor; suite block: BlockAllocate requests (cid.Undef via adder.BlockAllocate, stored entry, factors, expiry, "
+            "user allocations, follower, ping states); non-trivial = positive factors or everywhere (-1,-1); distinct by case line",
+    "trusted_base": ["suites allocate/block: metrics.Store-backed monitor stands in for pubsubmon (LatestValid is the real code); suite raw: the real pubsubmon.Monitor fed through LogMetric",
                      "verif_export.go wrappers (VerifNewCluster, VerifAllocate)"],
-    "assumptions": ["LatestMetrics returns at most one metric per peer (C09)",
+    "assumptions": ["time does not advance between LatestMetrics and the second Discard() test in SortNumeric",
                     "a non-numeric metric makes a peer unusable for new allocations under the shipped strategies"],
 }
 META = {
@@ -15,7 +21,11 @@ META = {
             "of the property hold (no size bound). The relation is tied to today's code by running the real allocate()/allocators/metrics.Store "
             "on thousands of seeded cases per run and checking (a) the real output is in the relation and (b) the Lean property checker on the real output; "
             "and by a go/ast translator that regenerates the decision skeleton of allocate(), obtainAllocations(), isReplicationFactorValid() and the shipped "
-            "allocators on every run, compared by `decide` with the skeleton the model was transcribed from (gen_* theorems).",
+            "allocators on every run, compared by `decide` with the skeleton the model was transcribed from (gen_* theorems). "
+            "Round 7: the abstract metric-state input is derived, not assumed: pipeline_yields_states proves the composition of the transcribed Store/Window/LatestValid/peerset-filter steps "
+            "over RAW metric arrivals equal to it (allowed_holds_raw), suite raw ties that transcription to the real pubsubmon.Monitor; classification_precedence is a theorem about the regenerated "
+            "classifier structure for all overlaps of the three lists; sort_shape_sound about the regenerated discard/parse/comparison structure of SortNumeric; BlockAllocate (suite block) and Cluster.pin "
+            "are proved to consult the same relation with the inputs the property names.",
     "note": "Trusted: Lean kernel (+propext, Classical.choice, Quot.sound), the hand-written model/spec, the Go harness and its store-backed monitor, "
             "verif_export.go wrappers. A non-numeric metric is treated as unusable for new allocations.",
     "technique": "Lean 4 theorem over relational model + regenerated source skeleton checked by decide + differential correspondence with the real allocate()",
